@@ -12,6 +12,10 @@
   #include <unistd.h>
 #endif
 
+#if defined(ASMJIT_VERIF)
+extern "C" { void (*asmjit_verif_lock_hook)(int kind, const void* lock) = nullptr; }
+#endif
+
 ASMJIT_BEGIN_NAMESPACE
 
 #if !defined(_WIN32)
